@@ -34,6 +34,7 @@ Definition valid_icall (D : desc) (c : icall) : Prop :=
 (* ------------------------------------------------------------------ *)
 
 Ltac sproj :=
+  unfold g_bsz, asz, usz;
   cbn [k u cbuf ubuf mem dis_cmd dis_grp fault gL gS gR k_index k_partial k_length k_position
        k_write_size k_cmd k_var k_type k_char k_state k_cr k_hold k_hold_exit k_wbuf k_wstate
        k_wafter k_implicit u_state u_index u_position u_cmd u_var u_type u_wbuf u_wstate u_wafter
@@ -50,6 +51,7 @@ Ltac sproj :=
        g_index setg_index g_bsz asz usz set_fault_flag fst snd].
 
 Ltac sproj_in H :=
+  unfold g_bsz, asz, usz in H;
   cbn [k u cbuf ubuf mem dis_cmd dis_grp fault gL gS gR k_index k_partial k_length k_position
        k_write_size k_cmd k_var k_type k_char k_state k_cr k_hold k_hold_exit k_wbuf k_wstate
        k_wafter k_implicit u_state u_index u_position u_cmd u_var u_type u_wbuf u_wstate u_wafter
@@ -243,7 +245,7 @@ Proof.
   - rewrite strncpy_len. exact Hcb.
   - unfold KS, flush_ok, Kafter. sproj.
     pose proof wf_asz. repeat split; auto using nl_max_0.
-    apply txt_error_nul. unfold asz. lia.
+    apply txt_error_nul. lia.
 Qed.
 
 Lemma ack_ok_safe : forall s, Pre ATCMD s -> Safe (ack_ok s).
@@ -252,7 +254,7 @@ Proof.
   - rewrite strncpy_len. exact Hcb.
   - unfold KS, flush_ok, Kafter. sproj.
     pose proof wf_asz. repeat split; auto using nl_max_0.
-    apply txt_ok_nul. unfold asz. lia.
+    apply txt_ok_nul. lia.
 Qed.
 
 Lemma reset_state_safe : forall s, Pre ATCMD s -> Safe (reset_state s).
@@ -290,6 +292,261 @@ Proof.
   assert (H1 : Pre ATCMD (setk_hold false s)).
   { apply (safe_pre ATCMD) in H. pre_open H. split; [base_split | sproj; assumption]. }
   destruct (k_hold_exit (k s) <? 0)%Z; [apply ack_error_safe | apply ack_ok_safe]; exact H1.
+Qed.
+
+
+(* ------------------------------------------------------------------ *)
+(* the event queue                                                      *)
+(* ------------------------------------------------------------------ *)
+
+Lemma ring_next_lt : forall i, (if d_cap D <=? S i then 0 else S i) < d_cap D.
+Proof. intros i. pose proof wf_cap. destruct (Nat.leb_spec (d_cap D) (S i)); lia. Qed.
+
+(* pushing changes the ring, tail and count only *)
+Lemma push_eff : forall s ci t, ring_ok (u s) -> ci < npool ->
+  exists r tl cnt, fst (push_unsolicited_cmd D s ci t) = setu_count cnt (setu_tail tl (setu_ring r s)) /\
+    ring_ok (set_u_count cnt (set_u_tail tl (set_u_ring r (u s)))).
+Proof.
+  intros s ci t (R1 & R2 & R3 & R4) Hci. unfold push_unsolicited_cmd.
+  destruct (ring_full D s); cbn [fst].
+  - exists (u_ring (u s)), (u_tail (u s)), (u_count (u s)). split.
+    + destruct s as [kk [? ? ? ? ? ? ? ? ? ? ? ? ?] ? ? ? ? ? ? ? ? ?]. reflexivity.
+    + unfold ring_ok. sproj. auto.
+  - destruct (Nat.ltb_spec (u_tail (u s)) (length (u_ring (u s)))) as [L|L]; [|lia].
+    eexists _, _, _. split; [reflexivity|].
+    unfold ring_ok, cap. sproj. rewrite upd_len. repeat split; auto using ring_next_lt.
+    apply Forall_upd; auto.
+Qed.
+
+Lemma push_safe : forall s ci t, Safe s -> ci < npool -> Safe (fst (push_unsolicited_cmd D s ci t)).
+Proof.
+  intros s ci t H Hci. safe_open H.
+  destruct (push_eff s ci t Hr Hci) as (r & tl & cnt & E & R). rewrite E. safe_split.
+Qed.
+
+Lemma push_pre : forall f s ci t, Pre f s -> ci < npool -> Pre f (fst (push_unsolicited_cmd D s ci t)).
+Proof.
+  intros f s ci t H Hci. destruct H as (HB & HO). base_open HB.
+  destruct (push_eff s ci t Hr Hci) as (r & tl & cnt & E & R). rewrite E.
+  split; [base_split | destruct f; sproj; assumption].
+Qed.
+
+(* popping changes head and count only; the item names a command of the pool *)
+Lemma pop_eff : forall s, ring_ok (u s) ->
+  (pop_unsolicited_cmd D s = (s, None)) \/
+  exists hd cnt it, pop_unsolicited_cmd D s = (setu_count cnt (setu_head hd s), Some it) /\
+    fst it < npool /\ ring_ok (set_u_count cnt (set_u_head hd (u s))).
+Proof.
+  intros s (R1 & R2 & R3 & R4). unfold pop_unsolicited_cmd.
+  destruct (ring_empty s); [left; reflexivity|]. right.
+  destruct (nth_error (u_ring (u s)) (u_head (u s))) as [it|] eqn:E.
+  - eexists _, _, it. split; [reflexivity|]. split.
+    + eapply Forall_nth_error in R4; eauto.
+    + unfold ring_ok, cap. sproj. repeat split; auto using ring_next_lt.
+  - apply nth_error_None in E. lia.
+Qed.
+
+(* ------------------------------------------------------------------ *)
+(* stores by the application                                            *)
+(* ------------------------------------------------------------------ *)
+
+Lemma apply_poke_mem : forall s p,
+  map (@length N) (mem (apply_poke s p)) = map (@length N) (mem s).
+Proof.
+  intros s p. unfold apply_poke.
+  destruct (nth_error (mem s) (fst p)) as [data|] eqn:E; [|reflexivity].
+  destruct (store_prefix data (snd p)) as [d|] eqn:E2; [|reflexivity].
+  sproj. eapply map_length_upd; eauto. eapply store_prefix_len; eauto.
+Qed.
+
+Lemma apply_poke_eff : forall s p, exists mm, apply_poke s p = set_mem mm s /\
+  map (@length N) mm = map (@length N) (mem s).
+Proof.
+  intros s p. exists (mem (apply_poke s p)). split; [|apply apply_poke_mem].
+  unfold apply_poke.
+  destruct (nth_error (mem s) (fst p)) as [data|]; [|destruct s; reflexivity].
+  destruct (store_prefix data (snd p)) as [d|]; [reflexivity | destruct s; reflexivity].
+Qed.
+
+Lemma apply_poke_safe : forall s p, Safe s -> Safe (apply_poke s p).
+Proof.
+  intros s p H. destruct (apply_poke_eff s p) as (mm & E & L). rewrite E.
+  safe_open H. safe_split. congruence.
+Qed.
+
+Lemma apply_poke_pre : forall f s p, Pre f s -> Pre f (apply_poke s p).
+Proof.
+  intros f s p H. destruct (apply_poke_eff s p) as (mm & E & L). rewrite E.
+  pre_open H. split; [base_split; congruence | destruct f; sproj; assumption].
+Qed.
+
+
+(* ------------------------------------------------------------------ *)
+(* printing through the per-machine cursor: the effect is a new buffer  *)
+(* of the same length and a new position inside it                      *)
+(* ------------------------------------------------------------------ *)
+
+Lemma get_cur_ok : forall f s, g_pos f s <= g_bsz f s -> cur_ok (g_bsz f s) (get_cur f s).
+Proof. intros f s H. unfold get_cur, cur_ok. cbn [cu_fault cu_buf cu_pos]. auto. Qed.
+
+Lemma put_cur_nf : forall f c s, cu_fault c = false ->
+  put_cur f c s = setg_pos f (cu_pos c) (setg_buf f (cu_buf c) s).
+Proof. intros f c s H. unfold put_cur. rewrite H. reflexivity. Qed.
+
+Lemma print_string_eff : forall f s t, g_pos f s <= g_bsz f s ->
+  exists b p ok, print_string f s t = (setg_pos f p (setg_buf f b s), ok) /\
+    length b = g_bsz f s /\ p <= length b /\ (ok = true -> nth_error b p = Some 0%N).
+Proof.
+  intros f s t H. unfold print_string.
+  destruct (print_nstring_ok _ _ t (get_cur_ok f s H)) as [(A1 & A2 & A3) B].
+  destruct (print_nstring (get_cur f s) t) as [c ok]. cbn [fst snd] in *.
+  exists (cu_buf c), (cu_pos c), ok. rewrite put_cur_nf by exact A1.
+  repeat split; auto. lia.
+Qed.
+
+Lemma print_strings_eff : forall f s ts, g_pos f s <= g_bsz f s ->
+  exists b p ok, print_strings f s ts = (setg_pos f p (setg_buf f b s), ok) /\
+    length b = g_bsz f s /\ p <= length b /\
+    (ok = true -> nth_error (g_buf f s) (g_pos f s) = Some 0%N \/ ts <> [] -> nth_error b p = Some 0%N).
+Proof.
+  intros f s ts H. unfold print_strings.
+  destruct (print_pieces_ok ts _ _ (get_cur_ok f s H)) as [(A1 & A2 & A3) B].
+  destruct (print_pieces (get_cur f s) ts) as [c ok]. cbn [fst snd] in *.
+  exists (cu_buf c), (cu_pos c), ok. rewrite put_cur_nf by exact A1.
+  repeat split; auto. lia.
+Qed.
+
+Ltac do_print :=
+  match goal with
+  | |- context [print_string ?f ?s ?t] =>
+    let b := fresh "b" in let p := fresh "p" in let ok := fresh "ok" in let E := fresh "E" in
+    let L := fresh "L" in let P := fresh "P" in let Z := fresh "Z" in
+    destruct (print_string_eff f s t) as (b & p & ok & E & L & P & Z);
+    [sproj; try lia | rewrite E; clear E; sproj_in L; destruct ok; cbn [negb]; sproj]
+  | |- context [print_strings ?f ?s ?t] =>
+    let b := fresh "b" in let p := fresh "p" in let ok := fresh "ok" in let E := fresh "E" in
+    let L := fresh "L" in let P := fresh "P" in let Z := fresh "Z" in
+    destruct (print_strings_eff f s t) as (b & p & ok & E & L & P & Z);
+    [sproj; try lia | rewrite E; clear E; sproj_in L; sproj_in Z; destruct ok; cbn [negb]; sproj]
+  end.
+
+Ltac pre_tac := split; [base_split; try congruence; try lia | sproj; try assumption].
+
+Lemma end_with_error_safe : forall f s, Pre f s -> Safe (end_with_error f s).
+Proof. intros [|] s H; [apply ack_error_safe | apply unsolicited_reset_state_safe]; exact H. Qed.
+Lemma end_with_ok_safe : forall f s, Pre f s -> Safe (end_with_ok f s).
+Proof. intros [|] s H; [apply ack_ok_safe | apply unsolicited_reset_state_safe]; exact H. Qed.
+
+Lemma vap_nonempty : forall c a, vars_access_possible c a = true -> 0 < length (c_vars c).
+Proof.
+  intros c a H. unfold vars_access_possible in H. destruct (c_vars c); [discriminate | cbn; lia].
+Qed.
+
+(* cat.c:965 *)
+Lemma spfra_safe : forall f s, Pre f s -> cmd_ok (g_cmd f s) ->
+  Safe (start_processing_format_read_args D f s).
+Proof.
+  intros f s H Hc. unfold start_processing_format_read_args, cmd_of, cmd_at.
+  destruct f; sproj; sproj_in Hc; pre_open H;
+    destruct (cmd_ok_at _ Hc) as (ci & c & E1 & E2); rewrite E1, E2.
+  - do_print; [|apply ack_error_safe; pre_tac].
+    do_print; [|apply ack_error_safe; pre_tac].
+    destruct (vars_access_possible c RO) eqn:V.
+    + safe_split; try congruence. unfold KS, var_ok. sproj. rewrite E1, E2.
+      apply vap_nonempty in V. auto.
+    + destruct (c_hread c); cbn [negb]; [|apply ack_error_safe; pre_tac].
+      unfold set_loop_state. safe_split; try congruence. unfold KS; sproj.
+      split; [exact Hc|]. eapply nth_In0; eauto.
+  - do_print; [|apply unsolicited_reset_state_safe; pre_tac].
+    do_print; [|apply unsolicited_reset_state_safe; pre_tac].
+    destruct (vars_access_possible c RO) eqn:V.
+    + safe_split; try congruence. unfold US, var_ok. sproj. rewrite E1, E2.
+      apply vap_nonempty in V. auto.
+    + destruct (c_hread c); cbn [negb]; [|apply unsolicited_reset_state_safe; pre_tac].
+      unfold set_loop_state. safe_split; try congruence. unfold US; sproj.
+      split; [exact Hc|]. eapply nth_In0; eauto.
+Qed.
+
+
+(* cat.c:658 *)
+Lemma start_flush_after_ok_safe : forall f s, Pre f s -> In 0%N (g_buf f s) ->
+  Safe (start_flush_after_ok f s).
+Proof.
+  intros f s H Hn. unfold start_flush_after_ok, start_flush_c, start_flush_u.
+  destruct f; pre_open H; sproj_in Hn; safe_split;
+    [unfold KS, flush_ok, Kafter | unfold US, flush_ok, Uafter]; sproj; auto using nl_max_0.
+Qed.
+
+Lemma start_flush_after_safe : forall f ac au s, Pre f s -> In 0%N (g_buf f s) ->
+  (ac = CS_AFTER_OK /\ au = US_AFTER_OK) \/
+  (cmd_ok (g_cmd f s) /\ ((ac = CS_AFTER_FMT_READ /\ au = US_AFTER_FMT_READ) \/
+                          (ac = CS_AFTER_FMT_TEST /\ au = US_AFTER_FMT_TEST))) ->
+  Safe (start_flush_after f ac au s).
+Proof.
+  intros f ac au s H Hn Ha. unfold start_flush_after, start_flush_c, start_flush_u.
+  destruct f; pre_open H; sproj_in Hn; sproj_in Ha; safe_split;
+    [unfold KS, flush_ok, Kafter | unfold US, flush_ok, Uafter]; sproj;
+    (split; [auto using nl_max_0|]);
+    destruct Ha as [[-> ->] | [Hc [[-> ->] | [-> ->]]]]; auto.
+Qed.
+
+Lemma print_response_test_safe : forall f s, Pre f s -> cmd_ok (g_cmd f s) ->
+  g_pos f s <= g_bsz f s -> nth_error (g_buf f s) (g_pos f s) = Some 0%N ->
+  if snd (print_response_test D f s) then Safe (fst (print_response_test D f s))
+  else Pre f (fst (print_response_test D f s)).
+Proof.
+  intros f s H Hc Hp Hn. unfold print_response_test, cmd_of, cmd_at.
+  destruct (cmd_ok_at _ Hc) as (ci & c & E1 & E2). rewrite E1, E2.
+  destruct (c_descr c) as [d|].
+  - destruct f; sproj_in Hc; sproj_in Hp; sproj_in Hn; sproj_in E1; pre_open H.
+    + do_print; [|pre_tac].
+      specialize (Z eq_refl (or_intror ltac:(discriminate))).
+      destruct (c_htest c); sproj.
+      * unfold set_loop_state. safe_split; try congruence. unfold KS; sproj.
+        split; [exact Hc | eapply nth_In0; eauto].
+      * apply start_flush_after_ok_safe; [pre_tac | sproj; eapply nth_In0; eauto].
+    + do_print; [|pre_tac].
+      specialize (Z eq_refl (or_intror ltac:(discriminate))).
+      destruct (c_htest c); sproj.
+      * unfold set_loop_state. safe_split; try congruence. unfold US; sproj.
+        split; [exact Hc | eapply nth_In0; eauto].
+      * apply start_flush_after_ok_safe; [pre_tac | sproj; eapply nth_In0; eauto].
+  - cbn [negb]. destruct (c_htest c); cbn [fst snd].
+    + unfold set_loop_state.
+      destruct f; sproj_in Hc; sproj_in Hp; sproj_in Hn; pre_open H; safe_split;
+        [unfold KS | unfold US]; sproj; (split; [exact Hc | eapply nth_In0; eauto]).
+    + apply start_flush_after_ok_safe; [exact H | eapply nth_In0; eauto].
+Qed.
+
+(* cat.c:869 *)
+Lemma spfta_safe : forall f s, Pre f s -> cmd_ok (g_cmd f s) ->
+  Safe (start_processing_format_test_args D f s).
+Proof.
+  intros f s H Hc. unfold start_processing_format_test_args.
+  assert (Hc0 : cmd_ok (g_cmd f (setg_pos f 0 s))) by (destruct f; exact Hc).
+  unfold cmd_of at 1, cmd_at.
+  destruct (cmd_ok_at _ Hc0) as (ci & c & E1 & E2). rewrite E1, E2.
+  destruct f; sproj_in E1; sproj_in Hc; pre_open H.
+  - do_print; [|apply ack_error_safe; pre_tac].
+    do_print; [|apply ack_error_safe; pre_tac].
+    destruct (c_vars c) as [|v0 vr] eqn:EV.
+    + match goal with |- context [print_response_test D ATCMD ?s2] =>
+        pose proof (print_response_test_safe ATCMD s2) as R;
+        destruct (print_response_test D ATCMD s2) as [s3 ok3] end.
+      cbn [fst snd] in R. sproj_in R.
+      destruct ok3; [|apply ack_error_safe]; apply R; auto; pre_tac.
+    + safe_split; try congruence. unfold KS, var_ok; sproj. rewrite E1, E2, EV. cbn [length].
+      split; [lia | assumption].
+  - do_print; [|apply unsolicited_reset_state_safe; pre_tac].
+    do_print; [|apply unsolicited_reset_state_safe; pre_tac].
+    destruct (c_vars c) as [|v0 vr] eqn:EV.
+    + match goal with |- context [print_response_test D UNSOL ?s2] =>
+        pose proof (print_response_test_safe UNSOL s2) as R;
+        destruct (print_response_test D UNSOL s2) as [s3 ok3] end.
+      cbn [fst snd] in R. sproj_in R.
+      destruct ok3; [|apply unsolicited_reset_state_safe]; apply R; auto; pre_tac.
+    + safe_split; try congruence. unfold US, var_ok; sproj. rewrite E1, E2, EV. cbn [length].
+      split; [lia | assumption].
 Qed.
 
 End Inv.
